@@ -232,7 +232,10 @@ class LeaseCheckingCrawler(ShareCrawler):
             #  expired-or-not according to our configured age limit
             expired = False
             if self.mode == "age":
-                age_limit = original_expiration_time
+                # without an override a lease lives for the duration it was
+                # granted for (expiration minus grant/renew time), not until
+                # "age" exceeds the expiration *timestamp*, which never happens.
+                age_limit = original_expiration_time - grant_renew_time
                 if self.override_lease_duration is not None:
                     age_limit = self.override_lease_duration
                 if age > age_limit:
